@@ -117,9 +117,10 @@ func (fr *frame) havocCells() {
 }
 
 type rangeInfo struct {
-	key  string // ghost state key: set of visited keys
+	key  string // ghost state key: set of visited keys (map) / current byte index (string)
 	m    Val
 	mt   *types.Map
+	str  bool // range over a string
 }
 
 // rangeInit: iteration over a map is modelled with a ghost set of visited keys
@@ -128,7 +129,19 @@ func (fr *frame) rangeInit(x *ssa.Range) Val {
 	u := fr.u
 	mt, ok := x.X.Type().Underlying().(*types.Map)
 	if !ok {
-		panic(unsupportedf("range over string"))
+		// range over a string (int mode only): the iterator state is the byte index. A byte below 0x80
+		// is its own rune and advances by one; any other lead byte yields some rune >= 0x80 (a decoded
+		// code point or the replacement character) and advances by 1 to 4 bytes.
+		if u.mode.BV {
+			panic(unsupportedf("range over string in bv mode"))
+		}
+		key := u.regKey(fmt.Sprintf("iter.f%d.%s", fr.id, x.Name()), "Int")
+		fr.st.set(key, "0")
+		if fr.ranges == nil {
+			fr.ranges = map[*ssa.Range]*rangeInfo{}
+		}
+		fr.ranges[x] = &rangeInfo{key: key, m: fr.val(x.X), str: true}
+		return Val{t: "0", typ: x.Type()}
 	}
 	key := u.regKey(fmt.Sprintf("iter.f%d.%s", fr.id, x.Name()), "(Array "+u.sortOf(mt.Key())+" Bool)")
 	fr.st.set(key, "((as const (Array "+u.sortOf(mt.Key())+" Bool)) false)")
@@ -146,6 +159,18 @@ func (fr *frame) rangeNext(x *ssa.Next) Val {
 		panic(unsupportedf("next on an unknown iterator"))
 	}
 	ri := fr.ranges[r]
+	if ri.str {
+		sT := fr.term(ri.m)
+		idx := fr.st.get(u, ri.key)
+		okc := u.define(fr.tag("next_ok"), "Bool", fmt.Sprintf("(< %s (S_len %s))", idx, sT))
+		tup := x.Type().(*types.Tuple)
+		rn := u.declConst(fr.tag("next_rune"), "Int")
+		nx := u.declConst(fr.tag("next_idx"), "Int")
+		b := fmt.Sprintf("(select (S_arr %s) %s)", sT, idx)
+		fr.assume(fmt.Sprintf("(=> %s (and (>= %s 0) (=> (< %s 128) (and (= %s %s) (= %s (+ %s 1)))) (=> (>= %s 128) (and (>= %s 128) (<= %s 1114111) (> %s %s) (<= %s (+ %s 4)) (<= %s (S_len %s))))))", okc, idx, b, rn, b, nx, idx, b, rn, rn, nx, idx, nx, idx, nx, sT))
+		fr.st.set(ri.key, fmt.Sprintf("(ite %s %s %s)", okc, nx, idx))
+		return Val{typ: x.Type(), tup: []Val{{t: okc, typ: tup.At(0).Type()}, {t: idx, typ: tup.At(1).Type()}, {t: rn, typ: tup.At(2).Type()}}}
+	}
 	m := fr.term(ri.m)
 	okc := u.declConst(fr.tag("next_ok"), "Bool")
 	k := fr.freshOfType("next_key", ri.mt.Key())
